@@ -290,3 +290,33 @@ func (e *Engine) registerSyncMap() {
 	}
 	// uncontended mutexes outside Par: plain no-ops handled by the lock intrinsics in registerThreads
 }
+
+func (e *Engine) registerSyncMisc() {
+	in := e.intrinsics
+	in["(*sync.Once).Do"] = func(r *Run, fr *Frame, cc *ssa.CallCommon, a []Value) Value {
+		if r.onceDone == nil {
+			r.onceDone = map[string]bool{}
+		}
+		k := lockKey(a[0].(*PtrV))
+		if r.onceDone[k] {
+			return TupleV{}
+		}
+		r.onceDone[k] = true
+		fv := a[1].(*FuncV)
+		r.callFn(fr, fv.fn, fv.env, lbl("sync.Once.Do"))
+		return TupleV{}
+	}
+	in["(*sync.Mutex).Lock"] = func(r *Run, fr *Frame, cc *ssa.CallCommon, a []Value) Value {
+		l := r.lockOf(a[0].(*PtrV))
+		r.syncPoint(func() bool { return l.writer == -1 && len(l.readers) == 0 })
+		l.writer = r.curID()
+		r.vcAcquire(l, false)
+		return TupleV{}
+	}
+	in["(*sync.Mutex).Unlock"] = func(r *Run, fr *Frame, cc *ssa.CallCommon, a []Value) Value {
+		l := r.lockOf(a[0].(*PtrV))
+		r.vcRelease(l, false)
+		l.writer = -1
+		return TupleV{}
+	}
+}
